@@ -25,7 +25,7 @@ const MS: u64 = 1_000_000;
 static UNIQ: AtomicU64 = AtomicU64::new(0);
 
 /// task programs
-pub const PROGS: [&str; 8] = ["Return", "Panic", "PanicFmt", "Suspend", "Delay5", "CancelSelf", "CancelPrev", "Delay5x2"];
+pub const PROGS: [&str; 11] = ["Return", "Panic", "PanicFmt", "Suspend", "Delay5", "CancelSelf", "CancelPrev", "Delay5x2", "SubmitInside", "JoinNext", "Delay100"];
 
 #[derive(Clone, Debug, PartialEq, Eq)]
 pub enum Op {
@@ -37,6 +37,16 @@ pub enum Op {
     /// drive every pool to quiescence (as their loop threads would), then wait without timeout
     Join { p: usize, t: usize },
     Stop(usize),
+    /// disown the result of a task (what dropping its JoinHandle does)
+    Clean(usize),
+    /// submit a new task under the NAME (hence id) of an earlier task that is gone
+    Resubmit(usize),
+    /// try to create a worker coroutine with an unsatisfiable stack size
+    SubmitCoBad(usize),
+}
+
+fn is_submit(o: &Op) -> bool {
+    matches!(o, Op::Submit { .. } | Op::Resubmit(_))
 }
 
 impl Op {
@@ -49,6 +59,9 @@ impl Op {
             Op::Wait { p, t } => json!(format!("wait(P{p},T{t},5ms)")),
             Op::Join { p, t } => json!(format!("join(P{p},T{t})")),
             Op::Stop(p) => json!(format!("stop(P{p},50ms)")),
+            Op::Clean(t) => json!(format!("clean(T{t})")),
+            Op::Resubmit(t) => json!(format!("resubmit-name-of(T{t})")),
+            Op::SubmitCoBad(p) => json!(format!("submit_co-huge-stack(P{p})")),
         }
     }
     pub fn from_json(v: &Value) -> Option<Op> {
@@ -78,6 +91,15 @@ impl Op {
         if let Some(r) = inner("stop(P") {
             return Some(Op::Stop(r.split(',').next()?.parse().ok()?));
         }
+        if let Some(r) = inner("clean(T") {
+            return Some(Op::Clean(r.parse().ok()?));
+        }
+        if let Some(r) = inner("resubmit-name-of(T") {
+            return Some(Op::Resubmit(r.parse().ok()?));
+        }
+        if let Some(r) = inner("submit_co-huge-stack(P") {
+            return Some(Op::SubmitCoBad(r.parse().ok()?));
+        }
         None
     }
 }
@@ -102,7 +124,7 @@ impl Cfg {
             "priorities": self.prios, "max_tasks": self.max_tasks, "ops": self.ops, "depth": self.depth})
     }
     pub fn from_json(v: &Value) -> Option<Cfg> {
-        let ops_all = ["submit", "pass", "adv", "cancel", "wait", "join", "stop"];
+        let ops_all = ["submit", "pass", "adv", "cancel", "wait", "join", "stop", "clean", "resubmit", "cobad"];
         Some(Cfg {
             name: v.get("name")?.as_str()?.to_string(),
             pools: v.get("pools")?.as_array()?.iter().map(|p| Some((p.get("min")?.as_u64()? as usize, p.get("max")?.as_u64()? as usize, p.get("keep_alive_ns")?.as_u64()?))).collect::<Option<Vec<_>>>()?,
@@ -116,7 +138,7 @@ impl Cfg {
     }
     fn enabled(&self, hist: &[Op]) -> Vec<Op> {
         let mut v = Vec::new();
-        let ntasks = hist.iter().filter(|o| matches!(o, Op::Submit { .. })).count();
+        let ntasks = hist.iter().filter(|o| is_submit(o)).count();
         // a join / forever-wait leaves the clock at the end of time: nothing follows
         if hist.iter().any(|o| matches!(o, Op::Join { .. })) {
             return v;
@@ -144,15 +166,41 @@ impl Cfg {
         if self.ops.contains(&"adv") {
             v.push(Op::Adv(5));
         }
+        // once a task's name has been reused, its id means two tasks: leave it alone
+        let reused = |t: usize| hist.contains(&Op::Resubmit(t));
         if self.ops.contains(&"cancel") {
             for t in 0..ntasks {
-                if !hist.contains(&Op::Cancel(t)) {
+                if !hist.contains(&Op::Cancel(t)) && !reused(t) {
                     v.push(Op::Cancel(t));
                 }
             }
         }
+        if self.ops.contains(&"clean") {
+            for t in 0..ntasks {
+                if !hist.contains(&Op::Clean(t)) && !reused(t) && !hist.iter().any(|o| matches!(o, Op::Wait { t: tt, .. } if *tt == t)) {
+                    v.push(Op::Clean(t));
+                }
+            }
+        }
+        if self.ops.contains(&"resubmit") && ntasks < self.max_tasks {
+            for t in 0..ntasks {
+                if !reused(t) && matches!(hist.iter().filter(|o| is_submit(o)).nth(t), Some(Op::Submit { .. })) {
+                    v.push(Op::Resubmit(t));
+                }
+            }
+        }
+        if self.ops.contains(&"cobad") {
+            for p in 0..np {
+                if !hist.contains(&Op::SubmitCoBad(p)) {
+                    v.push(Op::SubmitCoBad(p));
+                }
+            }
+        }
         for t in 0..ntasks {
-            let Some(Op::Submit { p, .. }) = hist.iter().filter(|o| matches!(o, Op::Submit { .. })).nth(t) else { continue };
+            if reused(t) {
+                continue;
+            }
+            let Some(Op::Submit { p, .. }) = hist.iter().filter(|o| is_submit(o)).nth(t) else { continue };
             if self.ops.contains(&"wait") && !hist.iter().any(|o| matches!(o, Op::Wait { t: tt, .. } if *tt == t)) {
                 v.push(Op::Wait { p: *p, t });
             }
@@ -180,6 +228,7 @@ pub struct Viol {
 }
 
 struct TaskInfo {
+    name: String,
     pool: usize,
     prog: usize,
     prio: i64,
@@ -192,7 +241,7 @@ struct TaskInfo {
 }
 
 fn clone_info(t: &TaskInfo) -> TaskInfo {
-    TaskInfo { pool: t.pool, prog: t.prog, prio: t.prio, id: t.id, accepted: t.accepted, cancelled_before_start: t.cancelled_before_start, cancelled: t.cancelled, result_taken: t.result_taken }
+    TaskInfo { name: t.name.clone(), pool: t.pool, prog: t.prog, prio: t.prio, id: t.id, accepted: t.accepted, cancelled_before_start: t.cancelled_before_start, cancelled: t.cancelled, result_taken: t.result_taken }
 }
 
 #[derive(Default)]
@@ -204,6 +253,10 @@ struct Shared {
     ids: Vec<u64>,
     /// cancel requests made from inside task bodies: (target, target had started, target had finished)
     body_cancels: Vec<(usize, bool, bool)>,
+    /// submissions made from inside a task body: (task, pool was Running, accepted)
+    inner_submits: Vec<(usize, bool, bool)>,
+    /// joins made from inside a task body: (joiner, target, result)
+    inner_joins: Vec<(usize, usize, String)>,
 }
 
 pub struct Outcome {
@@ -269,7 +322,33 @@ pub fn run_history(cfg: &Cfg, hist: &[Op], emit_at: Option<&mut Emitter>) -> Out
         let at = |w: String| format!("op #{k} {}: {w}", op.to_json());
         let t_before = now();
         match op {
-            Op::Submit { p, prog, prio } => {
+            Op::Submit { .. } | Op::Resubmit(_) => {
+                let (p, prog, prio, name) = match op {
+                    Op::Submit { p, prog, prio } => (p, prog, prio, format!("task-{uniq}-{}", tasks.len())),
+                    Op::Resubmit(old) => {
+                        // only when the earlier task is really gone (finished, or cancelled before
+                        // it started and already discarded): otherwise its id would be ambiguous
+                        let gone = {
+                            let s = sh.lock().unwrap();
+                            (s.finished[*old] || (s.started[*old] > 0 && expected_result(tasks[*old].prog).is_err()) || tasks[*old].cancelled_before_start) && pools.iter().all(|q| q.size() == 0)
+                        };
+                        let tainted = tasks[*old].cancelled && !tasks[*old].cancelled_before_start;
+                        if !gone || tainted || !tasks[*old].accepted {
+                            // keep task numbering aligned with the history: a task that was never submitted
+                            {
+                                let mut s = sh.lock().unwrap();
+                                s.started.push(0);
+                                s.finished.push(false);
+                                s.ids.push(0);
+                            }
+                            tasks.push(TaskInfo { name: String::new(), pool: tasks[*old].pool, prog: 0, prio: 0, id: 0, accepted: false, cancelled_before_start: false, cancelled: false, result_taken: false });
+                            continue;
+                        }
+                        witnesses.push("task_name_reused");
+                        (&tasks[*old].pool.clone(), &0usize, &0i64, tasks[*old].name.clone())
+                    }
+                    _ => unreachable!(),
+                };
                 let t = tasks.len();
                 let (shc, cp, progc) = (sh.clone(), cur_pool.clone(), *prog);
                 {
@@ -312,6 +391,35 @@ pub fn run_history(cfg: &Cfg, hist: &[Op], emit_at: Option<&mut Emitter>) -> Out
                             SchedulableSuspender::current().expect("suspender").suspend();
                             step(2);
                         }
+                        "SubmitInside" => {
+                            let pool = CoroutinePool::current().expect("current pool");
+                            let running = pool.state() == PoolState::Running;
+                            let n = shc.lock().unwrap().inner_submits.len();
+                            let ok = pool.submit_task(Some(format!("inner-{who}-{t}-{n}-{}", now())), |_| Some(1), None, None).is_ok();
+                            shc.lock().unwrap().inner_submits.push((t, running, ok));
+                            step(1);
+                        }
+                        "JoinNext" => {
+                            let target = {
+                                let s = shc.lock().unwrap();
+                                s.ids.get(t + 1).copied().filter(|id| *id != 0)
+                            };
+                            if let Some(id) = target {
+                                let pool = CoroutinePool::current().expect("current pool");
+                                let r = pool.wait_task_result(id, Duration::from_secs(5));
+                                let txt = match r {
+                                    Ok(Ok(v)) => format!("Ok({v:?})"),
+                                    Ok(Err(m)) => format!("Err({m})"),
+                                    Err(e) => format!("IoErr({:?})", e.kind()),
+                                };
+                                shc.lock().unwrap().inner_joins.push((t, t + 1, txt));
+                            }
+                            step(1);
+                        }
+                        "Delay100" => {
+                            SchedulableSuspender::current().expect("suspender").delay(Duration::from_millis(100));
+                            step(1);
+                        }
                         "CancelPrev" => {
                             if t > 0 {
                                 let id = {
@@ -329,12 +437,12 @@ pub fn run_history(cfg: &Cfg, hist: &[Op], emit_at: Option<&mut Emitter>) -> Out
                     shc.lock().unwrap().finished[t] = true;
                     Some(1000 + progc)
                 };
-                let r = pools[*p].submit_task(Some(format!("task-{uniq}-{t}")), body, None, Some(*prio));
+                let r = pools[*p].submit_task(Some(name.clone()), body, None, Some(*prio));
                 let accepted = r.is_ok();
                 if let Ok(id) = &r {
                     sh.lock().unwrap().ids[t] = *id;
                 }
-                tasks.push(TaskInfo { pool: *p, prog: *prog, prio: *prio, id: r.as_ref().copied().unwrap_or(0), accepted, cancelled_before_start: false, cancelled: false, result_taken: false });
+                tasks.push(TaskInfo { name, pool: *p, prog: *prog, prio: *prio, id: r.as_ref().copied().unwrap_or(0), accepted, cancelled_before_start: false, cancelled: false, result_taken: false });
                 // C12: once stopping began, submissions are rejected
                 if stopped_once[*p] && accepted {
                     push(&mut viols, "C12", "submission-rejected-after-stop", "-", at("the pool accepted a task after stop() had been called".into()));
@@ -429,6 +537,22 @@ pub fn run_history(cfg: &Cfg, hist: &[Op], emit_at: Option<&mut Emitter>) -> Out
                 }
                 witnesses.push(if forever { "join_issued" } else { "timed_wait_issued" });
             }
+            Op::Clean(t) => {
+                if tasks[*t].accepted {
+                    pools[tasks[*t].pool].clean_task_result(tasks[*t].id);
+                    tasks[*t].result_taken = true;
+                    witnesses.push("result_disowned");
+                }
+            }
+            Op::SubmitCoBad(p) => {
+                let before = pools[*p].get_running_size();
+                let r = pools[*p].submit_co(|_, ()| None, Some(1usize << 60), None);
+                let after = pools[*p].get_running_size();
+                if r.is_err() && after != before {
+                    push(&mut viols, "C11", "running-size-counts-live-workers", "failed-worker-creation", at(format!("creating a worker failed ({:?}) yet the running size went from {before} to {after}", r.err().map(|e| e.kind()))));
+                }
+                witnesses.push("worker_creation_failure_injected");
+            }
             Op::Stop(p) => {
                 stopped_once[*p] = true;
                 cur_pool.store(*p as u64, Ordering::SeqCst);
@@ -437,6 +561,14 @@ pub fn run_history(cfg: &Cfg, hist: &[Op], emit_at: Option<&mut Emitter>) -> Out
                 cur_pool.store(u64::MAX, Ordering::SeqCst);
                 let elapsed = now().saturating_sub(t0);
                 witnesses.push("stop_issued");
+                for (j, started, finished) in sh.lock().unwrap().body_cancels.clone() {
+                    if tasks[j].accepted && !finished && !tasks[j].cancelled {
+                        tasks[j].cancelled = true;
+                        if !started {
+                            tasks[j].cancelled_before_start = true;
+                        }
+                    }
+                }
                 if r.is_ok() {
                     stop_ok[*p] = true;
                     let (started, finished) = {
@@ -445,8 +577,11 @@ pub fn run_history(cfg: &Cfg, hist: &[Op], emit_at: Option<&mut Emitter>) -> Out
                     };
                     // C12: every task accepted earlier by this pool has run before stop reports success
                     for (t, ti) in tasks.iter().enumerate() {
-                        if ti.pool == *p && ti.accepted && !ti.cancelled && started[t] == 0 {
-                            push(&mut viols, "C12", "accepted-tasks-run-before-stop-succeeds", "-", at(format!("stop() returned Ok after {elapsed}ns but task T{t}, accepted earlier, never started")));
+                        let done = finished[t] || (started[t] > 0 && expected_result(ti.prog).is_err());
+                        if ti.pool == *p && ti.accepted && !ti.cancelled && !done && PROGS[ti.prog] != "CancelSelf" {
+                            let class = if started[t] == 0 { "never-started" } else { "started-but-unfinished" };
+                            let timed_out = elapsed >= 50 * MS;
+                            push(&mut viols, "C12", "accepted-tasks-run-before-stop-succeeds", &format!("{class}:{}", if timed_out { "stop-timeout-expired" } else { "before-timeout" }), at(format!("stop() reported success after {elapsed}ns but task T{t}, accepted earlier and never cancelled, has not run to its end")));
                             break;
                         }
                     }
@@ -468,6 +603,32 @@ pub fn run_history(cfg: &Cfg, hist: &[Op], emit_at: Option<&mut Emitter>) -> Out
                 tasks[j].cancelled = true;
                 if !started {
                     tasks[j].cancelled_before_start = true;
+                }
+            }
+        }
+        // submissions / joins made from inside task bodies during this operation
+        {
+            let (subs, joins, fin, st) = {
+                let s = sh.lock().unwrap();
+                (s.inner_submits.clone(), s.inner_joins.clone(), s.finished.clone(), s.started.clone())
+            };
+            for (t, running, accepted) in subs {
+                if !running && accepted {
+                    push(&mut viols, "C12", "submission-rejected-after-stop", "from-a-task-while-stopping", at(format!("task T{t} submitted a task while its pool was stopping and the submission was accepted")));
+                }
+                witnesses.push("submission_from_inside_a_task");
+            }
+            for (j, target, txt) in joins {
+                witnesses.push("join_from_inside_a_task");
+                if target < tasks.len() && tasks[target].accepted && !tasks[target].cancelled {
+                    let want = match expected_result(tasks[target].prog) {
+                        Ok(v) => format!("Ok({v:?})"),
+                        Err(m) => format!("Err({m})"),
+                    };
+                    let _ = (&fin, &st);
+                    if txt != want {
+                        push(&mut viols, "C02", "wait-returns-own-outcome", "waiter-is-a-task", at(format!("task T{j} joined task T{target} from inside the pool with a 5s timeout and got {txt}; T{target}'s own outcome is {want}")));
+                    }
                 }
             }
         }
@@ -551,7 +712,8 @@ fn drive(cfg: &Cfg, pools: &mut [CoroutinePool<'static>], sh: &Arc<Mutex<Shared>
             idle = 0;
         } else {
             idle += 1;
-            if idle >= 3 || !busy {
+            // parked workers (delays of up to 100 ms) need virtual time, 20 ms per round
+            if idle >= 12 || !busy {
                 break;
             }
         }
@@ -785,13 +947,15 @@ pub fn configs(scen: &str, tier: &str) -> Vec<Cfg> {
             v.push(all("one-pool", vec![(0, 2, 0)], 2, &["Return", "Suspend", "Delay5"], if t { &[0, 1] } else { &[0] }, d(3, 5), &["submit", "pass", "adv", "cancel"], d(5, 8)));
             v.push(all("two-pools", vec![(0, 1, 0), (0, 2, 0)], 2, &["Return", "Suspend"], &[0], d(3, 5), &["submit", "pass", "cancel"], d(5, 7)));
             v.push(all("two-pools-cap1", vec![(0, 2, 0), (0, 2, 0)], 1, &["Return", "Delay5"], if t { &[0, -1] } else { &[0] }, d(3, 4), &["submit", "pass", "adv"], d(5, 7)));
+            v.push(all("name-reuse", vec![(0, 1, 0)], 4, &["Return"], &[0], 3, &["submit", "pass", "cancel", "clean", "resubmit"], d(6, 7)));
             if t {
                 v.push(all("three-pools", vec![(0, 1, 0), (0, 1, 0), (0, 2, 0)], 2, &["Return", "Suspend"], &[0], 4, &["submit", "pass"], 7));
             }
         }
         // C02: waits return the task's own outcome, whichever pool ran it
         "pool.c02" => {
-            v.push(all("one-pool", vec![(0, 2, 0)], 4, &["Return", "Panic", "PanicFmt", "Delay5"], &[0], d(2, 3), &["submit", "pass", "adv", "wait", "join"], d(5, 6)));
+            v.push(all("one-pool", vec![(0, 2, 0)], 4, &["Return", "Panic", "PanicFmt", "Delay5"], &[0], d(2, 3), &["submit", "pass", "adv", "wait", "join", "stop"], d(5, 6)));
+            v.push(all("join-from-task", vec![(0, 1, 0)], 4, &["Return", "Panic", "JoinNext"], &[0], d(3, 4), &["submit", "pass"], d(5, 6)));
             v.push(all("two-pools", vec![(0, 2, 0), (0, 2, 0)], 1, &["Return", "Panic"], &[0], d(3, 3), &["submit", "pass", "wait", "join"], d(5, 6)));
         }
         // C05 (pool part): single worker, priorities
@@ -801,19 +965,21 @@ pub fn configs(scen: &str, tier: &str) -> Vec<Cfg> {
         // C11: worker count
         "pool.c11" => {
             v.push(all("max1", vec![(0, 1, 0)], 4, &["Return", "Panic", "Suspend", "Delay5"], &[0], d(3, 3), &["submit", "pass", "adv", "cancel", "stop"], d(5, 6)));
-            v.push(all("max2", vec![(0, 2, 0)], 4, &["Return", "Suspend", "Delay5", "Delay5x2"], &[0], d(3, 3), &["submit", "pass", "adv", "cancel", "stop"], d(5, 6)));
+            v.push(all("max2", vec![(0, 2, 0)], 4, &["Return", "Suspend", "Delay5", "CancelPrev"], &[0], d(3, 3), &["submit", "pass", "adv", "cancel", "stop", "cobad"], d(5, 6)));
             v.push(all("min1", vec![(1, 2, 0)], 4, &["Return", "Delay5", "Panic"], &[0], d(2, 3), &["submit", "cancel", "stop"], d(4, 5)));
             v.push(all("keepalive", vec![(0, 2, 5 * MS)], 4, &["Return", "Suspend", "Delay5"], &[0], d(2, 3), &["submit", "pass", "adv", "cancel", "stop"], d(5, 6)));
         }
         // C12: lifecycle
         "pool.c12" => {
             v.push(all("lifecycle", vec![(0, 1, 0)], 4, &["Return", "Delay5", "Delay5x2"], &[0], d(3, 3), &["submit", "pass", "adv", "wait", "cancel", "stop", "join"], d(5, 6)));
+            v.push(all("stopping-window", vec![(0, 2, 0)], 4, &["Return", "SubmitInside", "Delay100"], &[0], d(2, 3), &["submit", "pass", "adv", "stop"], d(4, 5)));
             v.push(all("lifecycle-2", vec![(0, 2, 0)], 4, &["Return", "Suspend"], &[0], d(2, 3), &["submit", "pass", "wait", "stop", "join"], d(5, 6)));
         }
         // C13: cancel isolation
         "pool.c13" => {
             v.push(all("max1", vec![(0, 1, 0)], 4, &["Return", "Delay5", "Suspend", "CancelSelf", "CancelPrev"], &[0], d(3, 3), &["submit", "pass", "adv", "cancel", "join"], d(5, 6)));
-            v.push(all("max2", vec![(0, 2, 0)], 4, &["Return", "Delay5", "CancelPrev"], &[0], d(3, 3), &["submit", "pass", "adv", "cancel", "join"], d(5, 6)));
+            v.push(all("max2", vec![(0, 2, 0)], 4, &["Return", "Delay5", "Suspend", "CancelPrev"], &[0], d(3, 3), &["submit", "pass", "adv", "cancel", "join"], d(5, 6)));
+            v.push(all("disowned-results", vec![(0, 1, 0)], 4, &["Return", "Delay5"], &[0], d(2, 3), &["submit", "pass", "adv", "cancel", "clean"], d(5, 6)));
         }
         _ => {}
     }
